@@ -16,6 +16,14 @@ footprint hypothesis is discharged from `step_writes_only` (`Lemmas/d20Conc.lean
 The driver op `heap.conc` runs the same semantics against REAL goroutines
 (`harness/c20_dconc.go`).
 
+Reading (§8, slice d20b): `Set.Values` and what is built on it (`ValueSet.Values`,
+`AsValueSlice` of a set, `PathSet.List`), `convert.Unify` through `unifyTuplesAsList`,
+`UnmarkDeepWithPaths`, `PathSet.Union/Subtract` are modelled cell by cell in
+`CtyModel/HeapD20b.lean` (Go's `append`, the in-place sort, `make` + `copy`) and run by
+the driver op `heapx.run` inside the ordinary histories (`harness/c20_d2.go`).  NOT extended
+to them: the state invariant behind `values_frozen` (that the values THEY create are
+library-owned is shown for the witness histories only) and the goroutine semantics of §7.
+
 What is NOT proved here, and cannot be in this model: anything about the Go memory
 model or scheduler; that goroutines allocate disjoint objects (the arenas of §7 — the
 one-heap variant `shared_heap_untouched` does without, but only for the shared part;
